@@ -42,14 +42,14 @@ Qed.
 Lemma spectrum_jsi_linear a b ws wi s :
   spectrum_jsi ws wi (scale_setup a b s) = a * b ^ 2 * spectrum_jsi ws wi s.
 Proof.
-  unfold spectrum_jsi. rewrite jsa_raw_scale, jsi_normalization_linear.
+  unfold spectrum_jsi. rewrite jsa_raw_scale. rewrite ?jsi_normalization_linear, ?jsi_singles_normalization_linear, ?common_norm_linear.
   destruct (bool_dec _ true); unfold Rdiv; ring.
 Qed.
 
 Lemma spectrum_jsi_singles_linear a b ws wi s :
   spectrum_jsi_singles ws wi (scale_setup a b s) = a * b ^ 2 * spectrum_jsi_singles ws wi s.
 Proof.
-  unfold spectrum_jsi_singles. rewrite jsi_singles_raw_scale, jsi_singles_normalization_linear.
+  unfold spectrum_jsi_singles. rewrite jsi_singles_raw_scale. rewrite ?jsi_singles_normalization_linear, ?jsi_normalization_linear, ?common_norm_linear.
   destruct (Req_EM_T _ 0); unfold Rdiv; ring.
 Qed.
 
